@@ -522,3 +522,52 @@ META["C03"] = {
     "soft_s": {"quick": 240, "thorough": 2400},
 }
 PY_SERVES.append("C03")
+
+
+# ---- per-property MANIFEST texts (level_claimed.text, technique) ----
+_TEXTS = {
+ "C01": ("Per-program translation validation by differential execution: each generated (program, owner vector, output list, inline mode) is compiled by the real pipeline and the compiled graph's result is compared bytewise with the source graph's result on several inputs and evaluator seeds. Held-on-observed only; reach is the generator's measured operation/configuration coverage.",
+         "runtime monitoring: differential oracle (source vs compiled graph) over generated programs"),
+ "C02": ("Each compiled graph is executed by a three-party executor (a value crosses parties only at Send-annotated nodes; each party uses its own evaluator, seed and junk for what it does not own); the monitor checks what every designated output party ends with, under several junk fillings. This observes exactly the executions no existing test produces.",
+         "runtime monitoring: three-party executor with message log, outcome oracle against the source result"),
+ "C03": ("Exact mode enumerates ALL random tapes of small bit-typed compiled protocols over real three-party executions and requires identical view histograms per observer and output class (exhaustive within the tape bound and the PRF idealisation); sampled mode tests marginals, pairwise and three-way sums of view scalars on multi-bit templates with chi-square at alpha 1e-9.",
+         "runtime monitoring: exhaustive tape enumeration over monitored three-party executions + statistical two-sample tests on recorded views"),
+ "C04": ("Invariant walker over the live graphs returned by the real pipeline (counter uniqueness after each stage), online PRF-call log of executions, and inspection of the optimizer's node mapping on generated and real inputs.",
+         "runtime monitoring: invariant walker on pipeline artifacts + PRF-call log"),
+ "C05": ("Every compiled truncation is executed (one evaluator with several seeds, and three separate parties) on arrays of boundary and uniform inputs of the documented range; results are checked element-wise against integer arithmetic.",
+         "runtime monitoring: reference-arithmetic oracle over swept executions (single evaluator and three-party)"),
+ "C06": ("Per-graph translation validation of optimize_context: outputs and every mapped node under replayed randomness, interface, send markers, three-party outputs, reload and recorded types.",
+         "runtime monitoring: differential oracle (original vs optimised) with randomness replay, three-party executor, reload check"),
+ "C07": ("Per-context translation validation of inline_operations against the evaluator's native Call/Iterate semantics over all strategy classes, lengths 0..40 and mode/override combinations.",
+         "runtime monitoring: differential oracle (native Call/Iterate vs inlined graph)"),
+ "C08": ("Totality observed directly on generated contexts and a systematic collision probe; meaning by differential evaluation against per-node on-the-fly instantiation.",
+         "runtime monitoring: differential oracle (whole-context instantiation vs per-node instantiation) + totality observation"),
+ "C09": ("Online type monitor on every node value of generated graphs over all primitive operations, panic capture at add_node / custom_op / evaluate, error whitelist, and offline re-derivation of node types by the NumPy model.",
+         "runtime monitoring: online type/layout monitor + panic capture + offline reference model"),
+ "C10": ("Recorded one-operation executions are re-computed by an independent NumPy/Python-int model of the documented semantics; bytes and types must match.",
+         "runtime monitoring: offline reference-model checker over recorded execution logs"),
+ "C11": ("History + sequential transition model + invariant walker at the quiescent point after every API call, on the private state exposed by a read-only hook.",
+         "runtime monitoring: history checking against a sequential model, invariant hook"),
+ "C12": ("Round-trip differential on contexts from every producer, panic capture and invariant walker on two-layer mutated texts.",
+         "runtime monitoring: round-trip differential + fault injection into serialized text with panic capture and invariant walker"),
+ "C13": ("Exhaustive / boundary sweeps of the value codec against an independent implementation of the documented layout; JSON texts re-parsed by Python.",
+         "runtime monitoring: reference-model oracle (independent codec) over swept inputs, offline JSON checker"),
+ "C14": ("Exact reconstruction / layout checks for every sharing API on generated typed values; histograms of a party's pair of shares over many seeds tested for uniformity and independence of the secret.",
+         "runtime monitoring: reconstruction oracle + statistical tests on recorded share histograms"),
+ "C15": ("Call-history monitor for PRF purity across evaluator instances, domain checks on every generated value, PRNG replay, bias statistics.",
+         "runtime monitoring: call-history monitor (first answer is the model), domain checks, chi-square"),
+ "C16": ("Exhaustive operand pairs for small widths (one vectorised graph each) and structured pairs for wide operands, against native integer comparison.",
+         "runtime monitoring: native-arithmetic oracle over exhaustive / swept executions"),
+ "C17": ("Exhaustive small widths and corner/uniform operands for adder, multiplexer, clip and long division, against native arithmetic.",
+         "runtime monitoring: native-arithmetic oracle over exhaustive / swept executions"),
+ "C18": ("Reference stable sort on generated tables, all permutations for n <= 5, compiled sort by one evaluator and by three parties.",
+         "runtime monitoring: reference-model oracle (stable sort) + differential (compiled vs plaintext) + three-party executor"),
+ "C19": ("Independent relational join written from the documentation vs plaintext Join, and compiled join vs plaintext by one evaluator and by three parties over owner classes.",
+         "runtime monitoring: reference-model oracle (relational join) + differential (compiled vs plaintext) + three-party executor"),
+ "C20": ("Dense / exhaustive sweeps of each approximation against f64 with the authors' own tolerances; compiled versions on sampled points.",
+         "runtime monitoring: reference-function oracle over swept executions"),
+}
+for _k, (_t, _tech) in _TEXTS.items():
+    if _k in META:
+        META[_k]["level_text"] = _t + " Rule: " + META[_k]["rule"]
+        META[_k]["technique"] = _tech
